@@ -25,6 +25,7 @@ Definition tags_of (c : cfg) : list string :=
       ++ (if o_ret o =? -1 then ["minus_one"] else [])
       ++ (if (o_ret o =? 0) then ["zero"] else [])
       ++ (if c_nb c then ["nonblocking"] else [])
+      ++ (if defect_nonblocking_fd_waits c then ["nonblocking_fd_waits"] else [])
   | RAborted => ["model_abort"]
   | _ => match c_shape c with SConnect => ["connect_eintr_spins"] | _ => ["model_stuck"] end
   end.
